@@ -3,6 +3,7 @@ package main
 // ssakit.go — SITE, DOM/MPT primitives over go/ssa control-flow graphs.
 
 import (
+	"fmt"
 	"go/constant"
 	"go/token"
 	"go/types"
@@ -1632,4 +1633,88 @@ func readOnlySliceUse(ld *ssa.UnOp) bool {
 		}
 	}
 	return true
+}
+
+// ---- in-place filtering of a shared slice ---------------------------------------------------------------
+
+// inPlaceFilters: `y := x[:0]` followed by append(y, …) rewrites the backing array of x. That is only
+// sound when x is the function's own fresh slice; when x is read from a field of an object the function
+// was handed (a release's hooks, a chart's dependencies) the owner's list is overwritten while it is
+// still in use. Returns the offending Slice instructions of fn.
+func inPlaceFilters(fn *ssa.Function) []*ssa.Slice {
+	var out []*ssa.Slice
+	for _, b := range fn.Blocks {
+		for _, in := range b.Instrs {
+			sl, ok := in.(*ssa.Slice)
+			if !ok || sl.Low != nil || sl.High == nil {
+				continue
+			}
+			if k, isC := constInt(sl.High); !isC || k != 0 {
+				continue
+			}
+			// appended to?
+			appended := false
+			seen := map[ssa.Value]bool{}
+			var fwd func(v ssa.Value, d int)
+			fwd = func(v ssa.Value, d int) {
+				if seen[v] || d > 4 || v.Referrers() == nil {
+					return
+				}
+				seen[v] = true
+				for _, rf := range *v.Referrers() {
+					switch x := rf.(type) {
+					case *ssa.Call:
+						if bi, ok := x.Call.Value.(*ssa.Builtin); ok && bi.Name() == "append" && len(x.Call.Args) > 0 && x.Call.Args[0] == v {
+							appended = true
+						}
+					case *ssa.Phi:
+						fwd(x, d+1)
+					}
+				}
+			}
+			fwd(sl, 0)
+			if !appended {
+				continue
+			}
+			// is the base a field of something handed in?
+			shared := false
+			backSlice(sl.X, func(v ssa.Value) bool {
+				switch x := v.(type) {
+				case *ssa.UnOp:
+					if x.Op == token.MUL {
+						if _, isFA := x.X.(*ssa.FieldAddr); isFA {
+							shared = true
+							return true
+						}
+					}
+				case *ssa.MakeSlice, *ssa.Alloc:
+					return true
+				case *ssa.Call:
+					return true
+				}
+				return false
+			})
+			if shared {
+				out = append(out, sl)
+			}
+		}
+	}
+	return out
+}
+
+// checkInPlaceFilters reports them for the functions of the given packages.
+func checkInPlaceFilters(w *World, r *Report, rule string, pkgs []string) {
+	n := 0
+	for _, rel := range pkgs {
+		for _, fn := range w.FuncsIn(rel) {
+			for i, sl := range inPlaceFilters(fn) {
+				n++
+				r.Fn(FuncName(fn))
+				r.Bad(rule, fmt.Sprintf("%s/in-place#%d", FuncName(fn), i+1), w.InstrPos(sl), "a list read from a field of a shared object is filtered in place (x[:0] then append): the owner's list is overwritten while it is still used (other events, the stored record)")
+			}
+		}
+	}
+	if n == 0 {
+		r.OKTrivial(rule, "no-in-place-filter", "-", "no list held by a shared object is filtered in place")
+	}
 }
